@@ -380,8 +380,8 @@ def tagsOf (sc : Scaffold) (ft : Option (List Str)) : List Str :=
 /-- the loop state of `make_scaffold_name` (in the order of the generated tuple) ↦ the model's `(Namer, TagScan)` -/
 def absScan (cH cU : Int → Nat) : Bool × PyRt.SrcNamer × Bool × Option Str × Option Int × Option Str → Namer × TagScan
   | (is_painted, self, primary_tag, scaffold_name, rank, haplotype) =>
-    (absG cH cU self, { scaffoldName := scaffold_name, haplotype := haplotype, isPainted := is_painted, rank := rank,
-                      primaryTag := primary_tag })
+    (absG cH cU self,
+     { scaffoldName := scaffold_name, haplotype := haplotype, isPainted := is_painted, rank := rank, primaryTag := primary_tag })
 
 theorem firstRow_src (rows : List Row) :
     (pyGet rows (0 : Int) >>= fun (t : Row) => (PyRt.asFrag t).map (·.name)) = firstRowName rows := by
